@@ -6,6 +6,8 @@ From J5V.model Require Import CodecTypes CodecDecScalar CodecDec CodecDecQuery.
 From J5V.model Require CodecDecTree.
 From J5V.proofs Require Import CodecDecProofs CodecDecQueryProofs JsonLexProofs.
 From J5V.proofs Require CodecDecStored CodecDecReorder CodecDecDenote CodecDecFull.
+From J5V.model Require CodecDecCost.
+From J5V.proofs Require CodecDecCostProofs CodecDecCostBound.
 Import ListNotations.
 Local Open Scope N_scope.
 
@@ -117,15 +119,37 @@ Example C06_example_illtyped_env_excluded :
     [([78], SObject [mkProp [97] [1] false false [] (FScalar KInt32); mkProp [98] [1] false true [] (FObject [78])])] = false.
 Proof. vm_compute. reflexivity. Qed.
 
-(* ------------------------------------------------------------------ the time clause
-   "in time bounded by the input size" is NOT proved as a step count of the descent.  What is proved:
-   the number of Token() calls and of tokens is at most the number of bytes + 1
-   (C06_fuel_in_bytes, C06_lexer_fuel_never_exhausted), the call depth of the descent is at most the number
-   of tokens + 1 (fuel) and at most the constant 10000 property values (C06_nesting_bounded).  Not proved:
-   a bound on the total number of calls / elementary steps of the descent (it would need an instrumented
-   copy of the model); the run's deadline / timing oracle is the only check of it, and the error path of
-   a deeply nested document is known to be quadratic in the depth (capped by the nesting bound). *)
-Definition C06_time_clause_unproved : Prop := True.
+(* ------------------------------------------------------------------ the time clause: a step count
+   model/CodecDecCost.v is the token decoder with a step counter, generated from model/CodecDec.v (same
+   arms, same order): every entry of decode_present / object_body / oneof_body / array_items / map_items /
+   any_body — every decodeX call and every iteration of a body loop of decoder.go — counts one step, on
+   every path (the count is returned next to the outcome, errors included).
+   (1) the counter changes nothing: the first component is the Go-tied model's result;
+   (2) the count is at most (number of bytes + 1), for every input and every outcome.
+   A step is not constant work: a scalar conversion is linear in its token, the end-of-input / token reads
+   are the tokenizer's (one Token() call per token, C06_fuel_in_bytes), the error value of a deeply nested
+   document is built in time quadratic in the depth (capped by the nesting bound), and the model's
+   duplicate-key / seen checks are list scans where Go uses maps. *)
+Theorem C06_step_counter_changes_nothing : forall orc e root bs,
+  fst (CodecDecCost.decode_document_c orc e root bs) = decode_document orc e root bs.
+Proof. exact CodecDecCostProofs.decode_document_c_fst. Qed.
+Print Assumptions C06_step_counter_changes_nothing.
+
+Theorem C06_steps_linear_in_input : forall orc e root bs,
+  (snd (CodecDecCost.decode_document_c orc e root bs) <= length bs + 1)%nat.
+Proof. exact CodecDecCostBound.decode_document_steps. Qed.
+Print Assumptions C06_steps_linear_in_input.
+
+(* per call: a successful decode_present makes at most as many steps as it consumes tokens, a body loop
+   at most one more; on every path at most (tokens given + 1) *)
+Theorem C06_steps_per_call : forall orc e me f, CodecDecCostBound.bound_level orc e me f.
+Proof. exact CodecDecCostBound.bound_all. Qed.
+Print Assumptions C06_steps_per_call.
+
+(* the query decoder: a step count for QueryToProto is NOT proved (its loops are: one iteration per key,
+   one per path component, one per value; container-valued parameters run the descent above on their own
+   text); the crash / deadline oracle of the query stream is the only check of its time clause *)
+Definition C06_query_time_clause_unproved : Prop := True.
 
 (* non-vacuity: a recursive environment; a document exercising object, array, map, oneof
    (type-only and with a value), null members and a nested recursive value decodes to a
